@@ -60,7 +60,7 @@ def planted_shortcut(rng, dims, n):
     return None
 
 
-def gen_instance(rng, entry, kind, dims=None):
+def gen_instance(rng, entry, kind, dims=None, boundary_ray=False):
     """returns Prob or None"""
     if kind == "feasible" and dims is None and entry in ("lp", "conelp") and rng.random() < (0.25 if entry == "lp" else 0.08):
         return gp.planted_sparse_lp(rng)        # genuinely sparse pattern, n up to 12
@@ -76,7 +76,11 @@ def gen_instance(rng, entry, kind, dims=None):
         elif kind == "pinf":
             pr = gp.planted_pinf(rng, d, n, p)
         elif kind == "dinf":
-            pr = gp.planted_dinf(rng, d, n, min(p, max(n - 1, 0)))
+            pr = None
+            if boundary_ray:
+                pr = gp.planted_dinf(rng, d, n, min(p, max(n - 1, 0)), boundary=True)
+            if pr is None:
+                pr = gp.planted_dinf(rng, d, n, min(p, max(n - 1, 0)))
         elif kind == "shortcut":
             pr = planted_shortcut(rng, d, n)
         else:
@@ -90,6 +94,10 @@ def gen_options(rng, dims):
     """(options dict, class label).  show_progress always False."""
     o = {"show_progress": False}
     r = rng.random()
+    if r < 0.04:
+        # an explicitly EMPTY per-call dictionary means "all defaults"; solverun.call_entry poisons the global
+        # solvers.options for the duration of such a call, so a solver that falls back to them shows up here
+        return {}, "empty-dict"
     if r < 0.45:
         return o, "default"
     if r < 0.70:
@@ -216,10 +224,14 @@ def run_conelp_family(ctx, judge_status, mix, with_backends=True, op_fraction=0.
                 return op_case(c, ctx, rng, kind, judge_status)
         entry = rng.choices(["conelp", "lp", "socp", "sdp"], [0.45, 0.2, 0.17, 0.18])[0]
         kind = rng.choices(kinds, weights)[0]
-        pr = gen_instance(rng, entry, kind)
+        # a third of the unbounded instances have all their rays on the boundary of the recession cone (exact zeros
+        # in the slack of every valid certificate): only certificates that are actually returned are judged
+        pr = gen_instance(rng, entry, kind, boundary_ray=(kind == "dinf" and rng.random() < 0.35))
         if pr is None:
             ctx.count("generator.none")
             return
+        if getattr(pr, "boundary_ray", False):
+            ctx.count("dinf.boundary-ray")
         d = pr.dims
         sparse = rng.random() < 0.4
         junk = bool(d.s) and rng.random() < 0.4
